@@ -26,6 +26,15 @@ type chartSpec struct {
 	Enabled  bool           // as intended by the generator (model: user > root values.yaml > true)
 	Inst     map[string]any // intended final values of this chart (before source distribution)
 	CRDs     bool           // chart ships a crds/ directory with one CustomResourceDefinition
+	Twin     bool           // another chart of the tree is known to helm under the same name (different schema)
+}
+
+// id is unique per chart of the tree (namesakes sit under different parents).
+func (c *chartSpec) id() string {
+	if c.Parent == nil || c.Parent.Parent == nil {
+		return c.Name
+	}
+	return c.Parent.id() + "-" + c.Name
 }
 
 type pair struct {
@@ -472,7 +481,7 @@ func newPair(rng *rand.Rand) *pair {
 		kid.Children = append(kid.Children, grand)
 		p.Charts = append(p.Charts, grand)
 	}
-	if topo >= 72 {
+	if topo >= 60 {
 		sib = &chartSpec{Name: "sibc", Display: "sibc", Level: "sibling", Parent: root}
 		if chance(rng, 50) {
 			sib.Display = "sibx" // alias
@@ -481,12 +490,37 @@ func newPair(rng *rand.Rand) *pair {
 		root.Children = append(root.Children, sib)
 		p.Charts = append(p.Charts, sib)
 	}
+	// namesakes: DIFFERENT charts (own schema, own values) that helm knows under the same name
+	// at different places of the tree
+	if sib != nil {
+		var twin, other *chartSpec
+		switch x := rng.Intn(100); {
+		case x < 35 && grand != nil:
+			// the sibling's child is called like the child's child (two "grandc")
+			twin, other = &chartSpec{Name: "grandc", Display: "grandc", Level: "nephew", Parent: sib}, grand
+		case x < 55:
+			// a grandchild is called like a child of the root (root/sibc and root/kidc/sibc)
+			if sib.Display == "sibc" {
+				twin, other = &chartSpec{Name: "sibc", Display: "sibc", Level: "grandchild2", Parent: kid}, sib
+			}
+		case x < 75:
+			// a grandchild's real name equals the alias of another chart (root/sibc as sibx, root/kidc/sibx)
+			sib.Display, sib.Path = "sibx", []string{"sibx"}
+			twin, other = &chartSpec{Name: "sibx", Display: "sibx", Level: "grandchild2", Parent: kid}, sib
+		}
+		if twin != nil {
+			twin.Path = append(append([]string{}, twin.Parent.Path...), twin.Display)
+			twin.Parent.Children = append(twin.Parent.Children, twin)
+			p.Charts = append(p.Charts, twin)
+			twin.Twin, other.Twin = true, true
+		}
+	}
 	p.Umbrella = len(p.Charts) > 1 && chance(rng, 8)
 
 	// schemas
 	anySchema := false
 	for _, c := range p.Charts {
-		if chance(rng, 70) {
+		if chance(rng, 70) || c.Twin && chance(rng, 80) {
 			perm := map[string]any{"global": map[string]any{"type": "object"}}
 			if c.Level == "root" {
 				perm["tags"] = map[string]any{"type": "object"}
@@ -538,8 +572,10 @@ func newPair(rng *rand.Rand) *pair {
 	for _, c := range p.Charts[1:] {
 		c.Enabled = !chance(rng, 18)
 	}
-	if kid != nil && grand != nil && !kid.Enabled {
-		grand.Enabled = false
+	for _, c := range p.Charts[1:] { // parents come first in p.Charts
+		if !c.Parent.Enabled {
+			c.Enabled = false
+		}
 	}
 
 	// plant one violation
@@ -609,7 +645,7 @@ func newPair(rng *rand.Rand) *pair {
 	// enable switches
 	for _, c := range p.Charts[1:] {
 		final := c.Enabled
-		if c.Level == "grandchild" && !kid.Enabled {
+		if !c.Parent.Enabled {
 			final = chance(rng, 50) // irrelevant: the parent is off
 		}
 		setFlag := func(where map[string]any, val bool) {
@@ -723,7 +759,7 @@ func (p *pair) files() gen.Files {
 		umbrellaRoot := p.Umbrella && c.Level == "root"
 		if !umbrellaRoot {
 			f[dir+"values.yaml"] = jsonText(c.Defaults) // JSON is YAML
-			f[dir+"templates/cm.yaml"] = fmt.Sprintf("apiVersion: v1\nkind: ConfigMap\nmetadata:\n  name: {{ .Release.Name }}-%s\ndata:\n  vals: {{ toJson .Values | quote }}\n", c.Name)
+			f[dir+"templates/cm.yaml"] = fmt.Sprintf("apiVersion: v1\nkind: ConfigMap\nmetadata:\n  name: {{ .Release.Name }}-%s\ndata:\n  vals: {{ toJson .Values | quote }}\n", c.id())
 		}
 		if c.Schema != nil {
 			s := map[string]any{}
@@ -739,7 +775,7 @@ func (p *pair) files() gen.Files {
 			f[dir+"values.schema.json"] = jsonText(s)
 		}
 		if c.CRDs {
-			f[dir+"crds/"+c.Name+".yaml"] = fmt.Sprintf(crdYAML, c.Name, c.Name, c.Name)
+			f[dir+"crds/"+c.Name+".yaml"] = fmt.Sprintf(crdYAML, c.id(), strings.ReplaceAll(c.id(), "-", ""), c.id())
 		}
 		for _, ch := range c.Children {
 			emit(ch, dir+"charts/"+ch.Name+"/")
